@@ -284,11 +284,9 @@ def run_job(job):
 def main():
     inp = json.load(open(sys.argv[1]))
     res = []
+    from _limit import run_limited
     for job in inp["jobs"]:
-        try:
-            res.append(run_job(job))
-        except Exception as e:  # noqa
-            res.append({"error": traceback.format_exc()[-1500:], "kind": type(e).__name__})
+        res.append(run_limited(run_job, job))
     json.dump({"results": res}, open(sys.argv[2], "w"))
 
 
